@@ -1,17 +1,16 @@
-SPECIFICATION FairSpec
+SPECIFICATION Spec
 CONSTANTS
-  NJobs = 2
-  PanicJobs = {}
+  NJobs = 3
+  PanicJobs = {2}
   MaxW = 2
   Standby = 1
-  Batch = 0
+  Batch = 1
   QCap = 3
   WN = 3
-  WithExpiry = TRUE
-  WithClose = FALSE
+  WithExpiry = FALSE
+  WithClose = TRUE
   QueueGuardedClose = TRUE
-  AtomicExpiry = FALSE
-  NotifyOnExit = "never"
+  AtomicExpiry = TRUE
+  NotifyOnExit = "panic"
 INVARIANTS Inv_AtMostOnce Inv_RejectedNeverRun Inv_MaxConcurrent Inv_Counts Inv_HandlerOnlyJobPanics
-PROPERTY Live_ExactlyOnce
 CHECK_DEADLOCK FALSE
